@@ -30,3 +30,45 @@ Proof.
   exists 5%nat, (map Z.of_nat (seq 0 20)), [((0, 4), 1); ((16, 20), 0)]%nat.
   split; [repeat constructor|]. split; [vm_compute; discriminate|vm_compute; reflexivity].
 Qed.
+
+(* ------------------------------------------------------------------ *)
+(* the ROWS of the statement, with the sampling step named explicitly: "row o = the sample o steps from the nearest one", the
+   rows being the offsets o whose time o*dt lies in the window [-w0, w1].  pc_public (like the implementation) takes
+   dt := t[1] - t[0]; pc_public_spec_step takes the step as a parameter. *)
+Definition pc_public_spec_step {A} (dt : Z) (ts : list Z) (rows : list A) (tref : list Z) (ep : iset) (w0 w1 : Z)
+  : list Z * list (list (option A)) :=
+  let k0 := Z.to_nat (w0 / dt) in
+  let k1 := Z.to_nat (w1 / dt) in
+  (map (fun k => (Z.of_nat k - Z.of_nat k0) * dt) (seq 0 (k0 + k1 + 1)), pc_spec ts rows tref ep k0 k1).
+
+(* dt is the sampling step inside the epochs: two consecutive samples lying in a common epoch are dt apart
+   (regular sampling with holes between the epochs) *)
+Definition regular_in_epochsb (dt : Z) (ts : list Z) (ep : iset) : bool :=
+  forallb (fun ab : Z * Z => negb (existsb (fun iv => inb (fst ab) iv && inb (snd ab) iv) ep) || (snd ab - fst ab =? dt))
+          (combine ts (tl ts)).
+
+(* exact when the first two samples ARE one sampling step apart ... *)
+Theorem pc_public_step_thm : forall (A : Type) (d : A) ts rows tref ep w0 w1 dt,
+  nth 1 ts 0 - nth 0 ts 0 = dt -> 0 < dt -> 0 <= w0 -> 0 <= w1 ->
+  sortedZ ts -> sortedZ tref -> canonical ep -> length rows = length ts ->
+  pc_public d ts rows tref ep w0 w1 = pc_public_spec_step dt ts rows tref ep w0 w1.
+Proof.
+  intros A d ts rows tref ep w0 w1 dt E Hdt H0 H1 Hs Ht Hc Hl. subst dt.
+  rewrite pc_public_spec_thm by assumption. reflexivity.
+Qed.
+
+(* ... and FALSE otherwise: samples 0 | 10 11 12 13 14 in the epochs [0,1] and [9,15] (step 1 inside the epochs, a lone sample
+   in the first one), event at 12, window 2 + 2: the step is taken to be 10, a single row (time 0, value 3) is returned
+   instead of the five samples 1..5 at -2..2 *)
+Theorem pc_public_first_step_refuted :
+  exists (ts rows tref : list Z) (ep : iset) (w0 w1 dt : Z),
+    sortedZ ts /\ sortedZ tref /\ canonical ep /\ length rows = length ts /\ 0 < dt /\ 0 <= w0 /\ 0 <= w1
+    /\ regular_in_epochsb dt ts ep = true
+    /\ nth 1 ts 0 - nth 0 ts 0 <> dt
+    /\ pc_public 0 ts rows tref ep w0 w1 = ([0], [[Some 3]])
+    /\ pc_public_spec_step dt ts rows tref ep w0 w1
+       = ([-2; -1; 0; 1; 2], [[Some 1; Some 2; Some 3; Some 4; Some 5]]).
+Proof.
+  exists [0; 10; 11; 12; 13; 14], [0; 1; 2; 3; 4; 5], [12], [(0, 1); (9, 15)], 2, 2, 1.
+  vm_compute. intuition congruence.
+Qed.
